@@ -6,7 +6,7 @@ import leafgen as lg
 from core import cq, fr, fl, Raw, N, Some, dy
 
 ID = 'C09'
-GEN = ['kernels', 'thermal']
+GEN = ['kernels', 'thermal', 'utils']
 PROPS = 'Props/C09.v'
 MODEL_VO = ['Model/Dev.v']
 CASE_TYPE = 'c09case'
